@@ -15,6 +15,7 @@ def check(ctx):
     sides.check_sides(ctx, F)
     mergetab.positions_mapping_table(ctx, F)
     mergetab.row_scheme_agrees(ctx, F)
+    mergetab.fold_lore_phases(ctx, F)
     ctx.clause("R-TABLE monotonicity of call and canon merge tables; one-sided cells of the five mergers return the present state")
     ctx.clause("R-MUST lock-step: each try_merge_next_state_as_* calls next_state on the previous and the current slider exactly once on every path")
     ctx.clause("R-MUST update_ctx_states restores both contexts")
